@@ -29,11 +29,17 @@ pub(crate) fn decode_packet(mut src: Bytes, first_byte: u8) -> Result<Packet, De
         packet_type::UNSUBACK => {
             decode_ack(src, |packet_id| Packet::UnsubscribeAck { packet_id })
         }
-        packet_type::PINGREQ => Ok(Packet::PingRequest),
-        packet_type::PINGRESP => Ok(Packet::PingResponse),
-        packet_type::DISCONNECT => Ok(Packet::Disconnect),
+        packet_type::PINGREQ => decode_empty(&src, Packet::PingRequest),
+        packet_type::PINGRESP => decode_empty(&src, Packet::PingResponse),
+        packet_type::DISCONNECT => decode_empty(&src, Packet::Disconnect),
         _ => Err(DecodeError::UnsupportedPacketType),
     }
+}
+
+#[inline]
+fn decode_empty(src: &Bytes, pkt: Packet) -> Result<Packet, DecodeError> {
+    ensure!(!src.has_remaining(), DecodeError::InvalidLength);
+    Ok(pkt)
 }
 
 #[inline]
@@ -86,6 +92,7 @@ fn decode_connect_packet(src: &mut Bytes) -> Result<Packet, DecodeError> {
     } else {
         None
     };
+    ensure!(!src.has_remaining(), DecodeError::InvalidLength);
     Ok(Connect {
         clean_session: flags.contains(ConnectFlags::CLEAN_START),
         keep_alive,
@@ -103,6 +110,7 @@ fn decode_connect_ack_packet(src: &mut Bytes) -> Result<Packet, DecodeError> {
         ConnectAckFlags::from_bits(src.get_u8()).ok_or(DecodeError::ConnAckReservedFlagSet)?;
 
     let return_code = src.get_u8().try_into()?;
+    ensure!(!src.has_remaining(), DecodeError::InvalidLength);
     Ok(Packet::ConnectAck(ConnectAck {
         return_code,
         session_present: flags.contains(ConnectAckFlags::SESSION_PRESENT),
